@@ -162,14 +162,78 @@ Fixpoint pagesq_step (fuel : nat) (q : qco) (s : traph) : qco :=
     end
   end.
 
+(* ---- get_webentities_links_iter (the fast network query) --------------------------- *)
+Record nco := mkNC {
+  n_out : bool; n_auto : bool;
+  n_started : bool;
+  n_stack : list (N * N);                      (* phase 1: (block, inherited webentity) *)
+  n_pend : list (N * N);
+  n_p2w : list (N * N);                        (* page block -> webentity *)
+  n_ptrs : list (N * N);                       (* (source webentity, head of its link list) *)
+  n_items : list (N * N * N);                  (* phase 2: (source we, target block, weight) still to process *)
+  n_phase2 : bool;
+  n_graph : list (N * N * N * N);
+  n_done : bool
+}.
+Definition netq_start (out auto : bool) : nco := mkNC out auto false [] [] [] [] [] false [] false.
+Definition nz2 (a w : N) : list (N * N) := if a =? 0 then [] else [(a, w)].
+Definition p2w_get (a : N) (m : list (N * N)) : N :=
+  match List.find (fun x => fst x =? a) m with Some (_, w) => w | None => 0 end.
+
+Fixpoint netq_step (fuel : nat) (q : nco) (s : traph) : nco :=
+  match fuel with
+  | O => q
+  | S f =>
+    if n_phase2 q then
+      match n_items q with
+      | (sw, tg, wt) :: rest =>
+          let q' g := mkNC (n_out q) (n_auto q) true [] [] (n_p2w q) (n_ptrs q) rest true g false in
+          let tw := p2w_get tg (n_p2w q) in
+          if tw =? 0 then netq_step f (q' (n_graph q)) s
+          else if negb (n_auto q) && (sw =? tw) then netq_step f (q' (n_graph q)) s
+          else q' (gincr (sw, 0, tw) wt (n_graph q))                                      (* yield *)
+      | [] =>
+          match n_ptrs q with
+          | [] => mkNC (n_out q) (n_auto q) true [] [] (n_p2w q) [] [] true (n_graph q) true   (* finalize *)
+          | (sw, h) :: ptrs =>
+              netq_step f (mkNC (n_out q) (n_auto q) true [] [] (n_p2w q) ptrs
+                                (map (fun x => (sw, fst x, snd x)) (weighted (targets_of (stubs s) h)))
+                                true (n_graph q) false) s
+          end
+      end
+    else
+      let q0 := if n_started q then q
+                else mkNC (n_out q) (n_auto q) true (nz2 (root_addr (tr s)) 0) [] [] [] [] false [] false in
+      match n_pend q0 ++ n_stack q0 with
+      | [] => netq_step f (mkNC (n_out q0) (n_auto q0) true [] [] (n_p2w q0) (n_ptrs q0) [] true (n_graph q0) false) s
+      | (a, w) :: rest =>
+          match read_at a (tr s) with
+          | None => netq_step f (mkNC (n_out q0) (n_auto q0) true rest [] (n_p2w q0) (n_ptrs q0) [] false (n_graph q0) false) s
+          | Some x =>
+              let d := rn_d x in
+              let cur := if we d =? 0 then w else we d in
+              (* stack order: child on top, then left, then right *)
+              let pushes := nz2 (rn_child x) cur ++ nz2 (rn_left x) w ++ nz2 (rn_right x) w in
+              if page d && negb (cur =? 0) then
+                let h := if n_out q0 then outh d else inh d in
+                mkNC (n_out q0) (n_auto q0) true rest pushes ((a, cur) :: n_p2w q0)
+                     (n_ptrs q0 ++ (if h =? 0 then [] else [(cur, h)])) [] false
+                     (gincr (cur, if crawled d then 1 else 2, 0) 1 (n_graph q0)) false          (* yield *)
+              else netq_step f (mkNC (n_out q0) (n_auto q0) true (pushes ++ rest) [] (n_p2w q0) (n_ptrs q0) [] false
+                                     (n_graph q0) false) s
+          end
+      end
+  end.
+
 (* ---- scheduler --------------------------------------------------------------------- *)
 Inductive coro :=
 | CBatch (b : bco)
 | CRule (r : rco)
-| CPages (q : qco).
+| CPages (q : qco)
+| CNet (q : nco).
 
 Definition co_done (c : coro) : bool :=
-  match c with CBatch b => b_done b | CRule r => r_done r | CPages q => q_done q end.
+  match c with CBatch b => b_done b | CRule r => r_done r | CPages q => q_done q | CNet q => n_done q end.
 
 Definition tree_size (t : tst) : nat := length (all_nodes t).
 
@@ -180,6 +244,8 @@ Definition co_step (c : coro) (s : traph) : coro * traph :=
        | CRule r => let '(r', s') := rule_step r s in (CRule r', s')
        | CPages q => (CPages (pagesq_step (S (S (length (q_prefixes q) + length (q_prefixes q) * tree_size (tr s)
                                                  + tree_size (tr s) + length (q_stack q) + length (q_pend q)))) q s), s)
+       | CNet q => (CNet (netq_step (S (S (S (tree_size (tr s) + length (stubs s) + length (n_items q) + length (n_ptrs q)
+                                               + length (n_stack q) + length (n_pend q))))) q s), s)
        end.
 
 Fixpoint set_nth_co (n : nat) (c : coro) (l : list coro) : list coro :=
